@@ -1,3 +1,48 @@
-From JV Require Import Model.Base Model.C07.
-Theorem C08_placeholder : True. Proof. exact I. Qed.
-Print Assumptions C08_placeholder.
+(* C08 -- URL.String is a canonical form that parses back to the same URL.
+   Proved here, about [url_string] (Model/Url.v, mirroring URL.String):
+   (1) the escaping it applies is invertible for EVERY byte string -- query
+   values (url.QueryEscape) and path segments (url.PathEscape) -- and escaped
+   query values contain none of the characters that delimit a URL's parts, so
+   a value can neither be cut nor merged on the way back; (2) the text is a
+   function of the field selections as a map of sets: reordering the
+   selection entries or the names inside them does not change it.
+   NOT PROVED (correspondence + oracle only): the full fixed point
+   parse(String(u)) = u, which needs url.Parse / ParseQuery themselves; the
+   recorded finding empty-field-list-chopped (a type without any field) is a
+   counterexample pinned by the golden files. *)
+From Coq Require Import Permutation.
+From JV Require Import Model.Base Model.GoTime Gen.TypeGo Model.Schema Model.Value
+  Model.Url Proofs.C08Facts.
+
+Theorem C08_query_escape_invertible : forall s, unescape true (query_escape s) = Some s.
+Proof. exact query_unescape_escape. Qed.
+Print Assumptions C08_query_escape_invertible.
+
+Theorem C08_path_escape_invertible : forall s, unescape false (path_escape s) = Some s.
+Proof. exact path_unescape_escape. Qed.
+Print Assumptions C08_path_escape_invertible.
+
+Theorem C08_escaped_values_have_no_delimiter : forall s, no_delim (query_escape s) = true.
+Proof. exact query_escape_no_delim. Qed.
+Print Assumptions C08_escaped_values_have_no_delimiter.
+
+Theorem C08_field_names_order : forall k l1 l2,
+  Permutation l1 l2 -> field_param (k, l1) = field_param (k, l2).
+Proof. exact field_param_perm. Qed.
+Print Assumptions C08_field_names_order.
+
+Theorem C08_string_canonical : forall u1 u2 lj,
+  u_fragments u1 = u_fragments u2 -> u_iscol u1 = u_iscol u2 ->
+  p_filter (u_params u1) = p_filter (u_params u2) ->
+  p_rules (u_params u1) = p_rules (u_params u2) ->
+  p_page (u_params u1) = p_page (u_params u2) ->
+  NoDup (map fst (p_fields (u_params u1))) ->
+  Permutation (p_fields (u_params u1)) (p_fields (u_params u2)) ->
+  url_string u1 lj = url_string u2 lj.
+Proof. exact url_string_fields_order. Qed.
+Print Assumptions C08_string_canonical.
+
+Example c08_escape_examples :
+  query_escape "a b&c?#%+/=" = "a+b%26c%3F%23%25%2B%2F%3D" /\
+  path_escape "a b?/" = "a%20b%3F%2F".
+Proof. vm_compute. split; reflexivity. Qed.
